@@ -25,9 +25,10 @@ def main(argv=None):
         path = args.replay if os.path.isabs(args.replay) else os.path.join(HOME, args.replay)
         with open(path) as f:
             w = json.load(f)
-        mod, agg = runner.run_check(w["property"], w["tier"], w["seed"], only_cases=[w["idx"]],
+        # a sanitizer report is not tied to one case (idx -1): replay the whole lane
+        mod, agg = runner.run_check(w["property"], w["tier"], w["seed"], only_cases=None if w["idx"] < 0 else [w["idx"]],
                                     only_lane=w["lane"], replay=True)
-        viol = agg["violating"]
+        viol = agg["violating"] or [{"witnesses": [r]} for r in agg.get("sanitizer_reports", [])]
         print("replay of %s: lane=%s case=%s -> %s" % (path, w["lane"], w["idx"],
                                                      "still violated" if viol else dict(agg["status"])))
         for v in viol:
